@@ -109,11 +109,21 @@ def doDispatch (l : Line) : Option String := do
     | .ipOnly => "ipOnly"
   some s!"ok kind={ks} user_out={if userGetsOut k g then 1 else 0}"
 
+/-- `classify d=D shape=a,b` answers `ok scalar=0|1 n=N` or `err:value`. -/
+def doClassify (l : Line) : Option String := do
+  let d ← l.nat? "d"
+  let shape ← l.nats? "shape"
+  if d = 0 then none
+  match classifyArrayInput d shape with
+  | none => some "err:value"
+  | some (sc, n) => some s!"ok scalar={if sc then 1 else 0} n={n}"
+
 def handle (l : Line) : Option String :=
   match l.op with
   | "interp" => doInterp l
   | "cast" => doCast l
   | "dispatch" => doDispatch l
+  | "classify" => doClassify l
   | _ => none
 
 def main : IO Unit := driverLoop handle
